@@ -172,7 +172,7 @@ def check(cx):
     r4 = cx.rule("C06.4", "TAB: the transformation rules that reorder joins or push filters through them "
                  "(JoinCommutativityRule, JoinAssociativityRule, FilterPushdownJoinRule) compare the join type only with "
                  "Inner/Cross and each has such a gate: commuting, re-associating or pushing a WHERE predicate below/into an "
-                 "outer join changes which rows are NULL-extended", floor=3)
+                 "outer join changes which rows are NULL-extended; every join operator a rule matches has its type read", floor=6)
     JT = "sql::parser::ast::JoinType"
     for rule_name in ("JoinCommutativityRule", "JoinAssociativityRule", "FilterPushdownJoinRule"):
         fs = [g for g in p.fns.values() if ("<sql::planner::rules::%s as " % rule_name) in (g.root or g.id)]
@@ -201,6 +201,37 @@ def check(cx):
             for bi, adt, m, oth, src in enum_switches(p, g):
                 if adt == JT:
                     gate |= set(m)
+        # every join operator the rule matches has its join type tested (in `matches` or in `apply`): a rule that tests the
+        # inner join of `(A JOIN B) LEFT JOIN C` but not the outer one re-associates the outer join away
+        tested, n_arms = set(), 0
+        for g in fs:
+            if g.root:
+                continue
+            arms_ = sorted((bi, m["Join"]) for bi, adt_, m, oth, src in enum_switches(p, g)
+                           if adt_.endswith("LogicalOperator") and "Join" in m)
+            n_arms = max(n_arms, len(arms_))
+            for bi2, b2 in enumerate(g.blocks):
+                reads = False
+                for st in b2["stmts"]:
+                    pls = []
+                    rv = st["rv"]
+                    if rv.get("r") in ("ref", "discr"):
+                        pls.append(rv["p"])
+                    for o in (rv.get("o") or []) if isinstance(rv.get("o"), list) else []:
+                        pl = o.get("c") or o.get("m")
+                        if pl:
+                            pls.append(pl)
+                    if any(isinstance(pe, str) and pe.startswith(".join_type:") for pl in pls for pe in pl[1:]):
+                        reads = True
+                if not reads:
+                    continue
+                doms = [k for k, (sb, tgt) in enumerate(arms_) if g.dominates(tgt, bi2)]
+                if doms:
+                    tested.add(max(doms))      # the innermost matched join
+        cx.verdict(n_arms > 0 and tested >= set(range(n_arms)), r4, rule_name + ":every-matched-join-tested", fs[0].where(),
+                   "%d matched join operator(s), join type of each is read" % n_arms,
+                   "%s matches %d join operator(s) but reads the join type of only %s of them: an outer join in the untested position is "
+                   "rewritten as if it were an inner join" % (rule_name, n_arms, sorted(tested)))
         cx.verdict(bool(gate) and gate <= {"Inner", "Cross"}, r4, rule_name, fs[0].where(), "gated to %s" % sorted(gate),
                    "%s applies to join types %s: rewriting an outer join this way changes the answer" % (rule_name, sorted(gate) or "(no gate at all)"))
 
@@ -408,7 +439,7 @@ def check(cx):
     # ---- C06.10 the sort enforcer: a delivered ordering satisfies a required one only if it covers all of it --------------
     r10 = cx.rule("C06.10", "FLOW: PhysicalProperties::satisfies (which decides whether a Sort is put under a merge join) checks every "
                   "required sort column: the two orderings' lengths are compared, or the column walk runs over the required "
-                  "ordering alone (never a zip, which stops at the shorter one and accepts a prefix)", floor=1)
+                  "ordering alone (never a zip, which stops at the shorter one and accepts a prefix), and position by position (no containment test)", floor=2)
     fs_ = cx.guard(r10, "satisfies", p.fn, "sql::planner::prop::PhysicalProperties::satisfies")
     if fs_:
         lens = [c for c in fs_.calls() if c.defn.endswith("::len")]
@@ -430,7 +461,28 @@ def check(cx):
                                                        "std::iter::Iterator::try_fold", "std::iter::Iterator::position")]
         zipped = [c for c in walkers if c.gargs and "Zip<" in c.gargs[0]]
         over_required = [c for c in walkers if c.gargs and "OrderingSpec" in c.gargs[0] and "Zip<" not in c.gargs[0]]
+        # ... and position by position: the i-th required column is compared with the i-th delivered one (an index/get on
+        # the delivered ordering, or a zip); a containment test (`any`/`find`/`position`/`contains` over the delivered
+        # ordering) accepts an input sorted on (x, y) as sorted on (y)
+        kids = [p.fns[x] for x in p.closure_children.get(fs_.id, ())]
+        more = []
+        for k_ in kids:
+            more += [p.fns[x] for x in p.closure_children.get(k_.id, ())]
+        fam_ = [fs_] + kids + more
+        positional = bool(zipped) or any(c.callee.endswith("<impl [T]>::get") or c.callee.endswith("Vec::<T, A>::get") or c.defn.endswith("Index::index")
+                                          or "get_unchecked" in c.callee for g_ in fam_ for c in g_.calls())
+        contain = sorted({c.defn.rsplit("::", 1)[-1] for g_ in kids + more for c in g_.calls()
+                          if c.defn in ("std::iter::Iterator::any", "std::iter::Iterator::find", "std::iter::Iterator::position")
+                          or c.callee.endswith("::contains")})
+        cx.verdict(positional and not contain, r10, "position-by-position", fs_.where(), "required[i] is compared with delivered[i]",
+                   "satisfies tests whether each required column occurs somewhere in the delivered ordering (%s) instead of at the same "
+                   "position: an input sorted on (x, y) is taken as sorted on (y), no Sort is put under the merge join and matches are lost" % (
+                       ", ".join(contain) or "no positional access found"))
         cx.verdict(cmpd or (bool(over_required) and not zipped), r10, "covers-required", fs_.where(),
                    "lengths compared" if cmpd else "walks the required ordering",
                    "satisfies accepts a delivered ordering that is only a prefix of the required one (no length comparison, the "
                    "columns are walked in a zip): no Sort is put under a merge join on a composite key and the join silently loses matches")
+
+    # ---- C06.11 (construct shared with C05.12) -------------------------------------------------------------------------
+    cx.include(c05, {"C05.12"}, "C06.11", "shared with C05.12: whether the hash/merge join (no residual condition) may replace the nested-loop join is "
+               "decided by is_equi_condition; it must hold for every conjunct or the join method changes the answer", floor=1)
